@@ -198,3 +198,13 @@ Proof. induction l as [|x l IH]; simpl.
   - rewrite andb_true_iff, negb_true_iff, pos_in_nIn, IH. split.
     + intros [H1 H2]; constructor; assumption.
     + intro H; inversion H; subst; split; assumption. Qed.
+
+Lemma NoDup_app_inv {A} (a b : list A) :
+  NoDup (a ++ b) -> NoDup a /\ NoDup b /\ forall x, In x a -> ~ In x b.
+Proof.
+  induction a as [|y a IH]; simpl; intros H.
+  - split; [constructor|]. split; [exact H | intros x []].
+  - inversion H as [|? ? Hn Hd]; subst. destruct (IH Hd) as (Ha & Hb & Hdis).
+    split; [constructor; [intros Hin; apply Hn; apply in_or_app; left; exact Hin | exact Ha]|].
+    split; [exact Hb|]. intros x [->|Hx]; [intros Hin; apply Hn; apply in_or_app; right; exact Hin | apply Hdis; exact Hx].
+Qed.
